@@ -1466,7 +1466,7 @@ class SpaceManager(SharedSpaceOperations):
             basevalue = value._impl.idstr
             for subspace in self._get_subs(space):
                 if name in subspace.own_refs:
-                    break
+                    continue
                 else:
                     subvalue = self._graph.get_relative(
                         subspace.idstr, space.idstr,
@@ -1496,7 +1496,7 @@ class SpaceManager(SharedSpaceOperations):
         for subspace in self._get_subs(space):
             is_relative = False
             if name in subspace.own_refs:
-                break
+                continue
             if isinstance(value, Interface) and value._is_valid():
                 if refmode == "auto" or refmode == "relative":
                     is_relative, value = self.get_relative_interface(
@@ -1523,9 +1523,9 @@ class SpaceManager(SharedSpaceOperations):
             is_relative = False
             subref = subspace.own_refs[name]
             if subref.is_defined():
-                break
+                continue
             elif subref.defined_bases[0] is not space.own_refs[name]:
-                break
+                continue
             if isinstance(value, Interface) and value._is_valid():
                 if (refmode == "auto"
                         or refmode == "relative"):
